@@ -1,11 +1,13 @@
-(* Proofs/LoopBase.v — vocabulary and reader-level facts for the proofs about
-   the ScanSnapshot loop (C02, C03 totality of the loop, C11):
-     - measures on traces (delivered / handed / written / lines_of),
-     - the Read events issued by one call of read_line ([reads_ok]):
-       every Read is issued while the bytes already obtained for the current
-       line contain no LF,
+(* Proofs/LoopBase.v — reader-level facts for the proofs about the
+   ScanSnapshot loop (C02, C03 totality of the loop, C11); the vocabulary is in
+   Spec/LoopSpec.v:
+     - list helpers, count_lf, the measures on traces and append,
+     - the Read events issued by one call of read_line ([reads_ok],
+       [read_line_trace]): every Read is issued while the bytes already
+       obtained for the current line contain no LF, and returns a prefix of
+       what the source holds,
      - the lines of a byte string ([lines]). *)
-From PP Require Import Base.Bytes Base.GoResult Model.Reader Spec.ReaderSpec Proofs.ReaderBase.
+From PP Require Import Base.Bytes Base.GoResult Model.Reader Spec.ReaderSpec Spec.LoopSpec Proofs.ReaderBase.
 From Coq Require Import String.
 
 (* ------------------------------------------------------------------ *)
@@ -39,8 +41,6 @@ Lemma app_split_eq {A} (d s t : list A) : d ++ t = s ->
   d = firstn (List.length d) s /\ t = skipn (List.length d) s.
 Proof. intros <-. now rewrite firstn_length_app, skipn_length_app'. Qed.
 
-(* number of LF bytes *)
-Definition count_lf (b : bytes) : nat := count_byte b LF.
 
 Lemma count_lf_app a b : count_lf (a ++ b) = count_lf a + count_lf b.
 Proof.
@@ -67,31 +67,6 @@ Qed.
 
 (* ------------------------------------------------------------------ *)
 (* measures on traces                                                   *)
-
-(* bytes delivered by the io.Reader *)
-Fixpoint delivered (t : list event) : nat :=
-  match t with
-  | [] => 0
-  | EvRead _ n :: t' => n + delivered t'
-  | _ :: t' => delivered t'
-  end.
-
-(* lines handed to the scanner *)
-Fixpoint lines_of (t : list event) : list bytes :=
-  match t with
-  | [] => []
-  | EvLine d :: t' => d :: lines_of t'
-  | _ :: t' => lines_of t'
-  end.
-Definition handed (t : list event) : nat := List.length (lines_of t).
-
-(* bytes written to the prefix writer *)
-Fixpoint written (t : list event) : bytes :=
-  match t with
-  | [] => []
-  | EvWrite d :: t' => d ++ written t'
-  | _ :: t' => written t'
-  end.
 
 Lemma delivered_app a b : delivered (a ++ b) = delivered a + delivered b.
 Proof. induction a as [|[lp n|d|d] a IH]; cbn [app delivered]; lia. Qed.
@@ -301,16 +276,6 @@ Qed.
 (* the lines of a byte string: cut after each LF; the last piece may be
    unterminated; no empty piece *)
 
-Fixpoint lines (b : bytes) : list bytes :=
-  match b with
-  | [] => []
-  | x :: b' =>
-      if N.eqb x LF then [x] :: lines b'
-      else match lines b' with
-           | [] => [[x]]
-           | l :: ls => (x :: l) :: ls
-           end
-  end.
 
 Lemma lines_lf a t : ~ In LF a -> lines (a ++ LF :: t) = (a ++ [LF]) :: lines t.
 Proof.
